@@ -4,6 +4,7 @@ package c01
 import (
 	"context"
 	"fmt"
+	"os"
 	"runtime"
 	"sync"
 	"testing"
@@ -36,6 +37,9 @@ type scenario struct {
 	IDPool     int    `json:"id_pool"`
 	Ops        int    `json:"ops_per_writer"`
 	Overlap    bool   `json:"close_overlaps_writers"`
+	Tight      bool   `json:"tight_writers,omitempty"`
+	Reuse      bool   `json:"caller_reuses_its_slice,omitempty"`
+	CloseUs    int    `json:"close_after_us,omitempty"`
 	Procs      int    `json:"gomaxprocs"`
 }
 
@@ -90,6 +94,7 @@ func gen(c *vrun.Case) scenario {
 	s.Ops = 5 + r.Intn(40)
 	s.Overlap = r.Intn(6) == 0
 	s.Procs = []int{1, 2, 4, 16}[r.Intn(4)]
+	s.Reuse = r.Intn(3) == 0 && os.Getenv("VERIF_NO_SLICE_REUSE") == ""
 	return s
 }
 
@@ -108,7 +113,7 @@ var procsMu sync.RWMutex // GOMAXPROCS is process global: cases that change it r
 func TestC01Conservation(t *testing.T) {
 	e := vrun.LoadEnv()
 	meta := vrun.Meta{Property: "C01", Workload: "TestC01Conservation", Total: e.Pick(300, 40000),
-		Rule: "each case draws (flush policy and parameter, QoS, datagram side channel, encoding, ack mode immediate/batched/reversed/duplicated, result codes, alias policy never/at-open/after-nth, 1-4 writer goroutines, id pool 1-6 plus fresh ids, 5-44 operations per writer mixing Write of 0-8 points with payload sizes 0/1/100/64KiB, Flush and yields); writers are joined and the stream is closed (1 in 6 cases lets Close overlap the writers: only the unconditional safety clauses are judged there). Oracle: broker-side ledger decoded through the alias table the broker issued vs. the recorded writes (multiset, per-writer per-id order, sequence numbers 1..N, close totals, nothing after the close request) + hook multisets at the closed notification. non-trivial = >=2 chunks and (>=2 writers or alias switch-over observed or batched/reordered acks); distinct = scenario tuple x chunk-boundary signature",
+		Rule: "each case draws (flush policy and parameter, QoS, datagram side channel, encoding, ack mode immediate/batched/reversed/duplicated, result codes, alias policy never/at-open/after-nth, 1-4 writer goroutines, id pool 1-6 plus fresh ids, 5-44 operations per writer mixing Write of 0-8 points with payload sizes 0/1/100/64KiB, Flush and yields); writers are joined and the stream is closed (1 in 6 cases lets Close overlap the writers; 1 in 3 cases the caller refills its argument slice with poison points as soon as WriteDataPoints returned). Oracle: broker-side ledger decoded through the alias table the broker issued vs. the recorded writes (multiset, per-writer per-id order, sequence numbers 1..N, close totals, nothing after the close request) + hook multisets at the closed notification. non-trivial = >=2 chunks and (>=2 writers or alias switch-over observed or batched/reordered acks); distinct = scenario tuple x chunk-boundary signature",
 		Assumptions: []string{"hook completeness is evaluated when the closed notification has been delivered (hooks are dispatched asynchronously in FIFO order before it)",
 			"the broker keeps fewer than 1024 acks outstanding (the documented buffering) - at most ~200 chunks per case",
 			"per-data-id order is judged along (sequence number, position in chunk), not arrival order"}}
@@ -127,6 +132,50 @@ func TestC01Conservation(t *testing.T) {
 		res.Desc = s
 		return res
 	})
+}
+
+// spinFor waits without parking the goroutine (a sleep of a few microseconds rounds up to the timer granularity).
+func spinFor(d time.Duration) {
+	t0 := time.Now()
+	for time.Since(t0) < d {
+		runtime.Gosched()
+	}
+}
+
+func TestC01CloseRace(t *testing.T) {
+	e := vrun.LoadEnv()
+	meta := vrun.Meta{Property: "C01", Workload: "TestC01CloseRace", Total: e.Pick(300, 20000),
+		Rule:        "Close races 2-8 writer goroutines that write in a tight loop (no sleeps, no flushes); Close is called 0-3000 microseconds after the writers start. Every write that returned nil - before or while Close ran - is judged for full conservation when Close returned nil (multiset, order, sequence numbers, close totals, nothing after the close request). non-trivial = at least one write returned nil after Close was called or failed because of the drain; distinct = scenario tuple x number of writes accepted during Close",
+		Assumptions: []string{"Close succeeded (cases where Close reports an error are inconclusive: the statement conditions on a successful Close)"}}
+	vrun.Loop(t, meta, 0, func(c *vrun.Case) vrun.Result {
+		s := gen(c)
+		s.Overlap, s.Tight = true, true
+		s.Writers = 2 + c.Rng.Intn(7)
+		s.Ops = 50 + c.Rng.Intn(300)
+		s.CloseUs = c.Rng.Intn(3000)
+		if c.Rng.Intn(3) == 0 {
+			s.CloseUs = c.Rng.Intn(200)
+		}
+		var res vrun.Result
+		ok, dump := vrun.Watchdog(120*time.Second, func() { res = runCase(c, s) })
+		if !ok {
+			r := vrun.WatchdogVerdict("the case never finished")
+			r.Desc = s
+			if r.Verdict == vrun.Inconclusive {
+				r.Witness = map[string]any{"dump_head": head(dump, 6000)}
+			}
+			return r
+		}
+		res.Desc = s
+		return res
+	})
+}
+
+func closeTimeout(s scenario) time.Duration {
+	if s.Tight {
+		return 3 * time.Second
+	}
+	return 60 * time.Second
 }
 
 func head(s string, n int) string {
@@ -202,8 +251,9 @@ func runCase(c *vrun.Case, s scenario) vrun.Result {
 		pool[i] = message.DataID{Name: fmt.Sprintf("id%d", i), Type: []string{"float64", "bytes", "string"}[i%3]}
 	}
 	rec := uplib.NewRecorder(w.Clock)
+	rec.ReuseSlice = s.Reuse
 	opts := rec.Options()
-	opts = append(opts, iscp.WithUpstreamQoS(qos(s.QoS)), iscp.WithUpstreamCloseTimeout(60*time.Second))
+	opts = append(opts, iscp.WithUpstreamQoS(qos(s.QoS)), iscp.WithUpstreamCloseTimeout(closeTimeout(s)))
 	switch s.Flush {
 	case "none":
 		opts = append(opts, iscp.WithUpstreamFlushPolicyNone())
@@ -253,7 +303,11 @@ func runCase(c *vrun.Case, s scenario) vrun.Result {
 			fresh := 0
 			<-start
 			for op := 0; op < s.Ops; op++ {
-				switch k := r.Intn(10); {
+				k := r.Intn(10)
+				if s.Tight && k >= 7 {
+					k = 0
+				}
+				switch {
 				case k < 7:
 					n := []int{0, 1, 1, 1, 2, 3, 5, 8}[r.Intn(8)]
 					var id message.DataID
@@ -293,7 +347,11 @@ func runCase(c *vrun.Case, s scenario) vrun.Result {
 	var closeErr error
 	closeCalledAt := int64(1) << 62
 	if s.Overlap {
-		time.Sleep(time.Duration(c.Rng.Intn(5)) * time.Millisecond)
+		if s.Tight {
+			spinFor(time.Duration(s.CloseUs) * time.Microsecond)
+		} else {
+			time.Sleep(time.Duration(c.Rng.Intn(5)) * time.Millisecond)
+		}
 		closeCalledAt = w.Clock.Tick()
 		closeErr = up.Close(ctx)
 		wg.Wait()
@@ -332,40 +390,21 @@ func runCase(c *vrun.Case, s scenario) vrun.Result {
 	mk := func(f *uplib.Finding) vrun.Result {
 		return vrun.Violation(f.Clause, f.Key, map[string]any{"detail": f.Detail, "writes": len(writes), "chunks": len(us.Chunks), "broker_notes": w.B.Errors})
 	}
-	// When Close overlaps the writers the statement's precondition ("calls that returned nil FOLLOWED BY a successful
-	// Close") holds only for the writes that had returned before Close was called: those must be conserved; for the
-	// others only the unconditional safety clauses are judged, and what happened to them is reported as an observation.
-	strict := writes
-	if s.Overlap {
-		strict = nil
-		for _, wr := range writes {
-			if wr.Return != 0 && wr.Return < closeCalledAt {
-				strict = append(strict, wr)
-			}
-		}
+	// Every write that returned nil counts, whether it returned before Close was called or while Close ran
+	// ("for all interleavings of Write/Flush/Close from one or more goroutines").
+	suffix := ""
+	if s.Tight {
+		suffix = ":close-racing-writers"
+	} else if s.Overlap {
+		suffix = ":close-overlapping-writers"
 	}
-	overlapLost := 0
-	if s.Overlap {
-		if f := uplib.CheckConservation(writes, &us, uplib.Opts{}); f != nil { // safety only: nothing altered, duplicated, reused
-			f.Key += ":close-overlapping-writers"
-			return mk(f)
-		}
-		if f := uplib.CheckSubset(strict, &us); f != nil {
-			f.Key += ":close-overlapping-writers"
-			return mk(f)
-		}
-		if f := uplib.CheckConservation(writes, &us, uplib.Opts{RequireAll: true, CheckClose: true}); f != nil {
-			overlapLost = 1 // observation: a write accepted while Close was running was not accounted for
-		} else if f := uplib.ChunkAfterClose(ledger, &us); f != nil {
-			overlapLost = 1
-		}
-	} else {
-		if f := uplib.CheckConservation(writes, &us, uplib.Opts{RequireAll: true, CheckClose: true}); f != nil {
-			return mk(f)
-		}
-		if f := uplib.ChunkAfterClose(ledger, &us); f != nil {
-			return mk(f)
-		}
+	if f := uplib.CheckConservation(writes, &us, uplib.Opts{RequireAll: true, CheckClose: true}); f != nil {
+		f.Key += suffix
+		return mk(f)
+	}
+	if f := uplib.ChunkAfterClose(ledger, &us); f != nil {
+		f.Key += suffix
+		return mk(f)
 	}
 	if len(closed) != 1 {
 		return vrun.Violation("closed notification delivered a number of times other than once", "closed-event-count", map[string]any{"times": len(closed)})
@@ -395,8 +434,27 @@ func runCase(c *vrun.Case, s scenario) vrun.Result {
 		boundary = (boundary ^ uint64(n+1)) * 1099511628211
 	}
 	nontrivial := len(us.Chunks) >= 2 && (s.Writers >= 2 || aliasSwitch || s.Ack == "batch")
+	duringClose, refused := 0, 0
+	if s.Tight {
+		for _, wr := range writes {
+			if wr.Err == "" && wr.Return > closeCalledAt {
+				duringClose++
+			}
+			if wr.Err != "" {
+				refused++
+			}
+		}
+		nontrivial = duringClose > 0 || refused > 0
+	}
 	sig := fmt.Sprintf("%s/%d/%d|%s|%v|%s|%s/%v/%v|%s/%d|w%d|ov%v|%x", s.Flush, s.FlushMs, s.FlushSize, s.QoS, s.Unreliable, s.Encoding, s.Ack, s.AckDup, s.AckReverse, s.Alias, s.AliasN, s.Writers, s.Overlap, boundary)
+	if s.Tight {
+		sig += fmt.Sprintf("|dc%d", duringClose)
+	}
 	r := vrun.Hold(sig, nontrivial)
+	if s.Tight {
+		r.Stat("writes_returned_nil_while_close_ran", int64(duringClose))
+		r.Stat("writes_refused_by_the_drain", int64(refused))
+	}
 	r.Stat("writes", int64(len(writes)))
 	r.Stat("points_received", int64(npoints))
 	r.Stat("chunks", int64(len(us.Chunks)))
@@ -409,7 +467,6 @@ func runCase(c *vrun.Case, s scenario) vrun.Result {
 	}
 	if s.Overlap {
 		r.Stat("cases_close_overlapping_writers", 1)
-		r.Stat("observation_overlap_cases_with_a_write_accepted_during_close_not_accounted", int64(overlapLost))
 	}
 	r.AddSet("policy_tuples", fmt.Sprintf("%s|%s|%s|%s", s.Flush, s.QoS, s.Ack, s.Alias))
 	return r
